@@ -30,11 +30,31 @@ def _build():
     return _BUILD["r"]
 
 
+def _sources_hash():
+    import glob
+    import hashlib
+    h = hashlib.sha256()
+    for f in sorted(glob.glob(os.path.join(LEAN, "TorchJDSpec", "*.lean"))) + [os.path.join(LEAN, "TorchJDSpec.lean"),
+                                                                               os.path.join(LEAN, "theorems.json")]:
+        h.update(open(f, "rb").read())
+    return h.hexdigest()[:16]
+
+
 def _audit(leanchecker=False):
+    """#print axioms audit / leanchecker re-check; the verdict is cached per hash of the .lean sources (inside the
+    git-ignored build directory), so the 20 thorough checks do not repeat a 2-minute re-check of identical sources."""
     t0 = time.time()
+    stamp = os.path.join(LEAN, ".lake", f"audit_{'lc' if leanchecker else 'ax'}_{_sources_hash()}.ok")
+    if os.path.exists(stamp):
+        return True, "cached verdict for these sources", 0
     cmd = ["./audit.sh", "--quiet"] + (["--leanchecker"] if leanchecker else [])
     try:
         p = subprocess.run(cmd, cwd=LEAN, capture_output=True, text=True, timeout=3600)
+        if p.returncode == 0:
+            try:
+                open(stamp, "w").write(time.strftime("%Y-%m-%dT%H:%M:%S"))
+            except OSError:
+                pass
         return p.returncode == 0, (p.stdout + p.stderr)[-600:], int((time.time() - t0) * 1000)
     except Exception as e:  # noqa: BLE001
         return False, f"{type(e).__name__}: {e}", int((time.time() - t0) * 1000)
